@@ -538,7 +538,7 @@ def run (code : Code) (lim : Limits) (quantum : Nat) (cancelAt : Option Nat) : N
 /-- `NewVM` (runs `@init`) followed by one invocation of `entry` with no arguments. -/
 def runMain (c : Compiled) (lim : Limits := {}) (quantum : Nat := 50) (fuel : Nat := 100000)
     (entry : String := "main") : Outcome :=
-  let initS : VMState := { calls := [⟨"@main_@init", 0⟩] }
+  let initS : VMState := { calls := [⟨"@main.@init", 0⟩] }
   match run c.fns lim quantum none fuel initS with
   | .ok s1 =>
     match c.entryFns.lookup entry with
